@@ -527,6 +527,43 @@ func (r *Runner) Finish() {}
 
 // Run executes one case (the loop body of cmd/sec replay).
 func (r *Runner) Run(c *Case) { r.W.Emit(r.r.runCase(*c)) }
+
+// Arena: one array for the payloads of all n goroutines, cut into n lanes.  An even goroutine puts its payload at the END
+// of its lane, its odd neighbour at the START of the next one: two goroutines cipher / MAC adjacent, disjoint sub-slices of
+// one buffer at the same time, and the capacity of the first runs over the second.  A call that touches octets behind its
+// payload (even to write back what it read) touches another goroutine's value.
+type Arena struct {
+	buf  []byte
+	lane int
+}
+
+// NewArena sizes the lanes by the longest payload of the case list.
+func NewArena(cs []Case, n int) *Arena {
+	lane := 64
+	for i := range cs {
+		if k := len(cs[i].Data) + 64; k > lane {
+			lane = k
+		}
+		if k := (cs[i].Nbits+7)/8 + 64; k > lane {
+			lane = k
+		}
+	}
+	return &Arena{buf: make([]byte, lane*n+64), lane: lane}
+}
+
+// Place makes runner r (goroutine g) put its payloads into the arena.
+func (a *Arena) Place(r *Runner, g int) {
+	lo, hi := g*a.lane, (g+1)*a.lane
+	r.r.place = func(n int) []byte {
+		if n+32 > a.lane {
+			return make([]byte, n+24)
+		}
+		if g%2 == 0 {
+			return a.buf[hi-n : hi] // capacity runs on over the neighbour's lane
+		}
+		return a.buf[lo : lo+n+24] // the odd goroutine checks the 24 octets of its own lane behind its payload
+	}
+}
 '''
 
 
